@@ -232,7 +232,12 @@ def rule_c17_columns(prog: Program, col: Collector) -> None:
         rows = {a[0] for ev, a in items if a is not None}
         col.check(len(rows) == 1, ref.where(items[0][0].node), ref.short, "set_values branch writes the same rows in all three columns",
                   construct="set_values-rows", necessity="flag and bounds of different rows would disagree")
-        for row in rows:
+        def alternatives(r):
+            """A row selector chosen by a conditional (`rows = slice(None)`, re-bound under `if coalitions is not None`) is each of its values."""
+            if r[0] in ("ifexp", "phi"):
+                return alternatives(r[2]) + alternatives(r[3])
+            return [r]
+        for row in [alt for r in rows for alt in alternatives(r)]:
             if row[0] == "slice":
                 continue
             cpar = ("param", ref.positional_params()[2])
@@ -632,7 +637,7 @@ def check_view_escape(prog: Program, col: Collector, gm, scope_files: set[str] |
                     if r:
                         return r
             return None
-        if t[0] == "phi":
+        if t[0] in ("phi", "ifexp"):
             return view_root(t[2]) or view_root(t[3])
         return None
 
